@@ -50,39 +50,48 @@ CLAIMED = {
    category="translation_validation",
    text="The Gallina model of determine_thread_chunks / read_values / parse_body's hand-over rule / Encoder::append is run against the "
         "real multi-threaded loader (MIN_CHUNK_SIZE override hook, rayon pools of 1..16 threads) with a chunk boundary swept over every "
-        "byte alignment by blank padding; oracle: equals the single-threaded observation and the meaning of the history. The claim is "
+        "byte alignment by blank padding, production chunking on 16 KiB..MiB bodies and recordings of 70000..200000 time steps (block "
+        "roll-over inside a chunk); oracle: equals the single-threaded observation and the meaning of the history. The claim is "
         "restricted to bodies satisfying the line discipline LD1-LD5; outside it the property is false on this code (7 known findings "
-        "with witnesses, re-confirmed on every run). handover_exact is not yet proved in Coq, hence the level.",
+        "with witnesses, re-confirmed on every run). Coq theorems pinned in Properties/C03.v cover the two halves separately: "
+        "handover_segment / chunk_simulates (a parser thread started in mid body emits, after skipping to the next line start, exactly "
+        "the events the sequential parser emits from there until its stop rule fires) and appended_transparent / appended_transparent_rs "
+        "(whatever the per-thread encoders recorded is reported in chunk order with shifted time indices, de-duplicated across seams, "
+        "for bit vectors, reals and strings). That consecutive segments tile the sequential event list is not proved, hence the level.",
    design_ref="DESIGN.md section 6, C03",
    note="Trusted: Coq kernel, extraction (ExtrOcamlBasic), OCaml driver incl. float_of_string as f64 parser and identity as LZ4, Rust harness, generators and the Python oracle computed from the abstract history.  A-rayon: indexed collect preserves order; chunk closures are pure functions of shared immutable data.",
-   technique="correspondence: Coq model extracted to OCaml vs real code over exhaustive boundary alignments + oracle"),
+   technique="correspondence: Coq model extracted to OCaml vs real code over exhaustive boundary alignments + oracle; Coq theorems for the parser half and the storage half of the hand-over"),
  "C04": dict(
    category="proof",
-   text="Coq theorem storage_transparent_partial (Proofs/EncoderProofs.v, pinned in Properties/C04.v): for every history of time stamps "
-        "and VCD value changes over any number of signals, every block capacity 1..65536 (every segmentation), every compressor obeying "
-        "decompress(compress d) = d, a bit-vector signal of width >= 2 loaded by Reader::load_signal reports exactly the recorded changes "
-        "(time-table index, least kind, characters; equal neighbours once); corollary storage_independent_of_segmentation. Built from "
-        "load_fixed_stream, region_found/region_decodes, load_signal_blocks, entry_render, observe_entries, pack_unpack, leb_roundtrip, "
-        "metadata_roundtrip_*. Not covered by the end-to-end theorem (hence _partial): 1-bit signals, reals, strings, the raw (GHW) write path "
-        "and Encoder::append; these, and the tie of the whole model to the Rust code, are decided by the correspondence run: histories "
-        "driven through the real wavemem::Encoder (hook) and through the extracted model, exhaustive over kind orders x widths 1..40, both "
-        "sides of the compression threshold, appended segments, quiet gaps across the 65535 roll-over; oracle: meaning of the history.",
+   text="Coq theorems pinned in Properties/C04.v: storage_transparent (Proofs/EncoderProofs.v) - for every history of time stamps and value "
+        "changes over any number of signals, every block capacity 1..65536 (every segmentation), every compressor obeying "
+        "decompress(compress d) = d, a bit-vector signal of any width >= 1, written through the VCD text path or the raw (GHW) path, "
+        "loaded by Reader::load_signal reports exactly the recorded changes (time-table index, least kind, characters; equal neighbours "
+        "once); storage_transparent_rs (Proofs/RealStringEnc.v) - the same for real-valued and string-valued signals; "
+        "appended_transparent / appended_transparent_rs - the same when the recording was divided among several encoders (parser "
+        "threads) appended in order; storage_independent_of_segmentation. Built from load_fixed_stream, load_reals_stream, "
+        "load_strings_stream, region_found/region_decodes, load_signal_blocks, entry_render, observe_entries, pack_unpack, leb_roundtrip, "
+        "metadata_roundtrip_*. The tie of the model to the Rust code is the correspondence run: histories driven through the real "
+        "wavemem::Encoder (hook) and through the extracted model, exhaustive over kind orders x widths 1..40, both sides of the "
+        "compression threshold, appended segments, quiet gaps and sparse / dense signals across the 65535 roll-over; oracle: meaning "
+        "of the history.",
    design_ref="DESIGN.md section 6, C04 and section 12.5",
-   note="Trusted: Coq kernel; the model Model/WaveMem.v is hand-written and tied to wavemem.rs by the correspondence check (extraction ExtrOcamlBasic, OCaml driver incl. float_of_string as f64 parser and identity as LZ4, Rust harness, generators, Python oracle). Theorem hypotheses: A-lz4 round trip as an explicit premise; < 2^32 time-table entries; < 4 GiB of data per signal; block capacity <= 65536.",
-   technique="Coq proof (refinement of the store to the recorded-history spec) + extracted-model correspondence"),
+   note="Trusted: Coq kernel; the model Model/WaveMem.v is hand-written and tied to wavemem.rs by the correspondence check (extraction ExtrOcamlBasic, OCaml driver incl. float_of_string as f64 parser and identity as LZ4, Rust harness, generators, Python oracle). Theorem premises: A-lz4 round trip; parse_f64 yields 8 bytes; < 2^32 time-table entries; < 4 GiB of data per signal; block capacity <= 65536.",
+   technique="Coq proof (refinement of the store to the recorded-history spec, all signal kinds, single and appended encoders) + extracted-model correspondence"),
  "C06": dict(
    category="proof",
-   text="Coq theorem loaded_signal_canonical (Proofs/CanonProofs.v, pinned in Properties/C06.v; corollary of storage_transparent): for "
+   text="Coq theorems pinned in Properties/C06.v: loaded_signal_canonical (Proofs/CanonProofs.v; corollary of storage_transparent): for "
         "every history of time stamps and VCD / raw value changes, every block capacity and compressor obeying the round-trip law, "
         "the report of a loaded bit-vector signal of any width lists values of exactly the declared width, each with the least state "
-        "kind able to hold it, and no two neighbours are equal; fst_writer_spec (C10) gives the same form for the FST signal writer. "
-        "Not covered by the theorem: reals, strings and sliced signals (C13); these and the tie of the model to the code are decided "
-        "by the canonical-form monitor (no equal neighbours, exact width, minimal kind, Real/String kinds) on every signal loaded from "
-        "VCD text, through the Encoder hook (text, raw, real paths, appended segments) and through fst::SignalWriter (hook), on "
-        "histories rich in redundant writes and kind changes, plus model-vs-implementation correspondence and the meaning oracle.",
+        "kind able to hold it, and no two neighbours are equal; loaded_rs_canonical: a loaded real / string signal has no two neighbours "
+        "with the same bytes and a real is its 8 bytes; fst_writer_spec / fst_writer_rs_spec (C10) give the same form for the FST signal "
+        "writer and slice_signal_spec (C13) for sliced signals. The tie of the model to the code is the canonical-form monitor (no "
+        "equal neighbours, exact width, minimal kind, Real/String kinds) on every signal loaded from VCD text, through the Encoder hook "
+        "(text, raw, real paths, appended segments) and through fst::SignalWriter (hook), on histories rich in redundant writes and "
+        "kind changes, plus model-vs-implementation correspondence and the meaning oracle.",
    design_ref="DESIGN.md section 6, C06 and section 12.5",
-   note="Trusted: Coq kernel; hand-written model tied to the code by the correspondence check (extraction ExtrOcamlBasic, OCaml driver incl. float_of_string as f64 parser and identity as LZ4, Rust harness, generators, Python oracle computed from the abstract history).  Slices are covered by C13.",
-   technique="Coq proof (corollary of the store refinement) + extracted-model correspondence + canonical-form monitor"),
+   note="Trusted: Coq kernel; hand-written model tied to the code by the correspondence check (extraction ExtrOcamlBasic, OCaml driver incl. float_of_string as f64 parser and identity as LZ4, Rust harness, generators, Python oracle computed from the abstract history).",
+   technique="Coq proof (corollaries of the store refinement, all signal kinds) + extracted-model correspondence + canonical-form monitor"),
  "C14": dict(
    category="translation_validation",
    text="Every generated VCD is loaded through 8 entry-point/mode combinations (mmap path single/multi-threaded, reader over Cursor and "
@@ -96,10 +105,13 @@ CLAIMED = {
    category="translation_validation",
    text="Every truncation offset of generated VCD bodies is loaded (path, reader, multi-threaded) by the real code and by the extracted "
         "model (panics, errors and results must coincide); oracle: never panic/hang outside the recorded class CutInsideChange (known "
-        "finding D9), prefix property of table and changes, exact restriction at line boundaries.",
+        "finding D9), prefix property of table and changes, exact restriction at line boundaries. Coq theorems pinned in Properties/C15.v "
+        "state the property for cuts where no token is pending: prefix_events / cut_at_token_boundary (parser), "
+        "prefix_history_prefix_report (store: a history that is a prefix of another is reported as a prefix - time table and every "
+        "bit-vector signal) and truncated_vcd_prefix_report (their composition for the single-threaded loader).",
    design_ref="DESIGN.md section 6, C15",
-   note="Trusted: Coq kernel, extraction (ExtrOcamlBasic), OCaml driver incl. float_of_string as f64 parser and identity as LZ4, Rust harness, generators and the Python oracle computed from the abstract history. ",
-   technique="fault enumeration over all cut points; correspondence with the Coq model extracted to OCaml + prefix oracle"),
+   note="Trusted: Coq kernel, extraction (ExtrOcamlBasic), OCaml driver incl. float_of_string as f64 parser and identity as LZ4, Rust harness, generators and the Python oracle computed from the abstract history. Cuts inside a token, real/string variables and the multi-threaded path are decided by the enumeration only.",
+   technique="fault enumeration over all cut points; correspondence with the Coq model extracted to OCaml + prefix oracle; Coq theorems for cuts at token boundaries"),
  "C08": dict(
    category="proof",
    text="Coq theorem hierarchy_wellformed (Proofs/HierProofs.v, pinned in Properties/C08.v): for every balanced sequence of "
@@ -127,15 +139,23 @@ CLAIMED = {
    note="Trusted: Coq kernel, extraction, OCaml driver, Rust harness + watchdog, Python class predicate. Seeks to offsets in (2^40, 2^63) are excluded (file-system dependent EINVAL).",
    technique="correspondence: Coq model (incl. dependency's block walk) extracted to OCaml vs real detection + totality/classification oracle"),
  "C13": dict(
-   category="translation_validation",
-   text="The Gallina model of slice_signal / slice_n_states / BitVectorBuilder (with the reduction to the smallest kind) is run, extracted "
-        "to OCaml, against signals::slice_signal (hook) on parents recorded through the real Encoder: exhaustive over parent widths 2..20 x "
-        "every proper sub-range x three kind profiles, random to width 300, debug and release builds; plus the 29 sub-range variables of "
-        "the corpus GHW file through the public API. Oracle: substring of the parent's value at every change, minimal kind, changes "
-        "only when the sub-range changes. Two genuine defects found this way were repaired (D1, D14). slice_spec is not yet proved, hence the level.",
-   design_ref="DESIGN.md section 6, C13",
-   note="Trusted: Coq kernel, extraction, OCaml driver, Rust harness (debug + release), Python substring oracle. GHW alias arithmetic is exercised through the corpus file only.",
-   technique="correspondence: Coq model extracted to OCaml vs real slicer (exhaustive small scope, debug+release) + substring oracle"),
+   category="proof",
+   text="Coq theorem slice_signal_spec (Proofs/SliceSignalProofs.v, pinned in Properties/C13.v): for every loaded bit-vector signal (entries "
+        "of any mix of 2/4/9-state kinds, any widest kind, any width), every proper sub-range [msb:lsb], debug and release semantics, "
+        "slice_signal (slice_bit_vector, slice_n_states, check_min_state/compress, BitVectorBuilder::add_change/finish) succeeds and the "
+        "result reports, for every entry of the parent, exactly the characters [msb:lsb] in their least sufficient kind at the same time "
+        "index, an entry whose slice equals the slice before it being dropped (changes only when the sub-range changes); "
+        "recorded_then_sliced composes it with storage_transparent (record -> load -> slice); slice_n_states_sem shows that the meta bits "
+        "kept in the unused part of an entry's first byte never reach the result. Not covered by the theorem: the GHW alias arithmetic "
+        "that chooses msb/lsb (register_bit_vec, find_or_add_alias) and the alias substitution of load_signals (C07 proves its shape); "
+        "these and the tie of the model to the code are decided by the correspondence run: the extracted model against "
+        "signals::slice_signal (hook) on parents recorded through the real Encoder, exhaustive over parent widths 2..20 x every proper "
+        "sub-range x three kind profiles, random to width 300, debug and release builds, the register_bit_vec hook on generated alias "
+        "layouts and the 29 sub-range variables of the corpus GHW file; oracle: substring of the parent's value at every change. Two "
+        "genuine defects found this way were repaired (D1, D14).",
+   design_ref="DESIGN.md section 6, C13 and section 12.5",
+   note="Trusted: Coq kernel; hand-written model Model/Slice.v tied to signals.rs by the correspondence check (extraction, OCaml driver, Rust harness in debug + release, Python substring oracle).",
+   technique="Coq proof (slicer refines substring-of-every-entry + de-duplication) + extracted-model correspondence (exhaustive small scope, debug+release) + substring oracle"),
  "C09": dict(
    category="translation_validation",
    text="The Gallina model of the VCD header path (read_command incl. the `$end` matcher, find_tokens, read_vcd_header, the callback of "
@@ -183,15 +203,19 @@ CLAIMED = {
    technique="translator (derive sites -> schema) + validation of real JSON + behavioural round trip on generated and corpus objects"),
  "C10": dict(
    category="translation_validation",
-   text="The Gallina model of fst::SignalWriter (add_change with on-demand widening, expand_entries, finish) is run, extracted to OCaml, against the "
-        "real writer (hook) on every ordered pair/triple of state kinds x widths 1..40 and random sequences; oracle: de-duplicated values in "
-        "minimal kinds, independent of the order of kinds (a genuine defect, D2, was found and repaired this way). Every corpus FST with a "
-        "VCD twin is compared with the VCD load (tree, time table x timescale, value at every time). The FST container is the "
-        "dependency's (fst-reader) and is NOT modelled: blocks, compression, hierarchy bytes and time chain are covered only through the "
-        "corpus files (also in C07, C14, C17). fst_writer_spec is not yet proved, hence the level.",
-   design_ref="DESIGN.md section 6, C10",
-   note="Trusted: Coq kernel, extraction (ExtrOcamlBasic), OCaml driver, Rust harness, Python generators/oracles. A-fst: the dependency decodes the container correctly. No FST writer exists in the sandbox, so inputs of the container level cannot be varied.",
-   technique="correspondence: Coq model of the FST value path extracted to OCaml vs real code + oracle; corpus twins for the container"),
+   text="Value path: Coq theorems fst_writer_spec / fst_writer_rs_spec (pinned in Properties/C10.v) - the signal fst::SignalWriter builds from "
+        "the delivered changes reports exactly those changes (least kind, equal neighbours once), independent of the order of state kinds "
+        "(every widening by expand_entries is invisible), for bit vectors of width >= 1, reals and strings; the extracted model is run "
+        "against the real writer (hook) on every ordered pair/triple of state kinds x widths 1..40 and random sequences (a genuine "
+        "defect, D2, was found and repaired this way). Container and hierarchy: complete FST files are generated from abstract designs "
+        "(vlib/filegen.py: 1..n value-change blocks with frame / explicit initial values, a time step shared by two blocks, zlib or raw "
+        "streams and time chain, gzip or LZ4 hierarchy with all scope types, 28 variable type codes, directions, aliases, enum tables, "
+        "source locators, VHDL type attributes, every timescale exponent class) and the loaded waveform must print the listing computed "
+        "from the design; every corpus FST with a VCD twin is compared with the VCD load. The FST container decoder is the dependency's "
+        "(fst-reader) and is not modelled in Coq, hence the level.",
+   design_ref="DESIGN.md section 6, C10 and sections 12.5, 12.7",
+   note="Trusted: Coq kernel, extraction (ExtrOcamlBasic), OCaml driver, Rust harness, Python generators/oracles incl. the FST file writer. A-fst: the dependency decodes the container correctly (exercised by the generated files, not proved).",
+   technique="Coq proof of the FST value path + extracted-model correspondence; generated FST files vs listing computed from the design; corpus twins"),
  "C11": dict(
    category="translation_validation",
    text="The Gallina model of the GHW signal section reader (snapshot/cycle/directory/tailer sections, cycle delta arithmetic, signed LEB128, "
@@ -206,13 +230,18 @@ CLAIMED = {
    technique="correspondence: Coq model of the GHW signal sections extracted to OCaml vs real code + oracle from abstract history"),
  "C12": dict(
    category="translation_validation",
-   text="One abstract value history per variable is sent through the three value paths (VCD text, FST signal writer, GHW per-bit records), each on "
-        "the real code and on its Gallina model; all six observations must equal the meaning of the history (exhaustive widths 1..24 x kind "
-        "orders, random to width 130). All corpus waveforms existing in two formats are loaded from both and compared (tree, time table x "
-        "timescale, value at every time). three_writers_agree is not yet proved as a Coq corollary, hence the level.",
-   design_ref="DESIGN.md section 6, C12",
-   note="Trusted: Coq kernel, extraction (ExtrOcamlBasic), OCaml driver, Rust harness, Python generators/oracles. Corpus twins come from third-party converters; three documented conversion artefacts are excluded.",
-   technique="correspondence of three Coq value-path models vs real code + cross-format oracle; corpus twins"),
+   text="Coq theorems pinned in Properties/C12.v: vcd_fst_same_report / vcd_fst_same_report_rs (the wavemem store fed VCD text and the FST "
+        "signal writer report the same for the same values: bit vectors, reals, strings) and same_meaning_same_report (VCD text changes "
+        "and pre-packed raw changes - what the GHW reader delivers - that mean the same symbols at the same time indices are reported "
+        "identically, whatever the segmentation of either store). Not proved: that the GHW section reader / vector buffer delivers the "
+        "packed form of what a file encodes, hierarchies and time tables of whole files. Those are decided by running: one abstract "
+        "value history per variable through the three value paths, each on the real code and on its Gallina model (exhaustive widths "
+        "1..24 x kind orders, random to width 130); complete VCD, FST and GHW files generated from one design (common subset plus "
+        "scenarios: several vectors written in one step, kind orders for every width residue, a vector idle for > 16384 steps, multi- "
+        "and single-threaded) whose listings must be equal and equal to the design; all corpus waveforms existing in two formats.",
+   design_ref="DESIGN.md section 6, C12 and sections 12.5, 12.7",
+   note="Trusted: Coq kernel, extraction (ExtrOcamlBasic), OCaml driver, Rust harness, Python generators/oracles incl. the three file writers. Corpus twins come from third-party converters; three documented conversion artefacts are excluded.",
+   technique="Coq proof of value-path agreement (VCD/FST/raw) + correspondence of three Coq value-path models vs real code + three-format file generators; corpus twins"),
 }
 
 NOT_YET = {}
